@@ -383,7 +383,9 @@ def entry_case(case, part):
             if res.get("value") != answer or len(pr[0][1]) != 1:
                 vs.append((f"C05/entry/{kind}/outcome", f"{tag}: returned {res.get('value')!r} after {len(pr[0][1])} transmissions"))
     elif kind == "discover_detected":
-        serial = {"ET": "9010KETU000W0000", "DT": "9006KDTU000W0000", "ES": "95048ESU000W0000"}[case["family"]]
+        # (UNKNOWN: the identification probe is answered by a model no family table lists - discover() goes on to probe the families)
+        serial = {"ET": "9010KETU000W0000", "DT": "9006KDTU000W0000", "ES": "95048ESU000W0000", "UNKNOWN": "9010KXYZ000W0000",
+                  "BLANK": "                "}[case["family"]]
         peer = DiscoveryThenSilent("inv0", info=sims.es_device_info(serial=serial))
         run = engine.run_custom({("inv0", 8899): peer}, lambda loop: g.discover("inv0", 8899, t, r))
         if run.stop:
@@ -487,6 +489,8 @@ def run_shard(spec):
                 for port in (8899, 502):
                     entry_case({"kind": "discover_silent", "port": port, "timeout": t, "retries": r}, part)
                     entry_case({"kind": "discover_silent", "port": port, "timeout": t, "retries": r, "via": "connect"}, part)
+                for fam in ("UNKNOWN", "BLANK"):
+                    entry_case({"kind": "discover_detected", "family": fam, "timeout": t, "retries": r}, part)
                 for fam in ("ET", "DT", "ES"):
                     entry_case({"kind": "discover_detected", "family": fam, "timeout": t, "retries": r}, part)
                     for via in ("connect", "discover", "connect_discover"):
